@@ -16,6 +16,7 @@ package ice
 //	        ErrMultipleStart, and role + remote credentials are those of the successful call
 //	restart k × Restart(u_i, p_i): the local credentials are (u_i, p_i) of ONE call
 //	creds   k × SetRemoteCredentials(u_i, p_i): the remote credentials are (u_i, p_i) of ONE call
+//	snapshot a slice returned by GetRemoteCandidates stays what it was when later calls change the agent's sets
 //	gather  k × GatherCandidates: each is accepted (superseding the previous cycle while the state is still New) or
 //	        refused with ErrMultipleGatherAttempted, and exactly one end-of-candidates (nil) is delivered
 //
@@ -251,11 +252,81 @@ func vaGather(r *vRand) string {
 	return "ok"
 }
 
+// vaSnapshot: a slice returned by GetRemoteCandidates / GetLocalCandidates is the CALLER's: later operations on
+// the agent must not change it (C10: the caller reads it off the loop; an alias of the agent's own storage is
+// both a data race and a torn view).  Remote candidates of two network types are added so that the agent's
+// per-type sets have spare capacity, a snapshot is taken, more candidates are added / the sets are wiped, and
+// the snapshot is compared with a private copy made at the time.
+func vaSnapshot(r *vRand) string {
+	a, err := vaAgent(WithNetworkTypes([]NetworkType{NetworkTypeUDP4, NetworkTypeUDP6}))
+	if err != nil {
+		return "error " + err.Error()
+	}
+	defer func() { _ = a.Close() }()
+	port := 7000
+	add := func(v6 bool) error {
+		port++
+		addr, network := fmt.Sprintf("10.9.%d.%d", port/250%250, port%250+1), "udp4"
+		if v6 {
+			addr, network = fmt.Sprintf("2001:db8::%x", port), "udp6"
+		}
+		c, err := NewCandidateHost(&CandidateHostConfig{Network: network, Address: addr, Port: port, Component: 1})
+		if err != nil {
+			return err
+		}
+
+		return a.AddRemoteCandidate(c)
+	}
+	for round := 0; round < 12; round++ {
+		n4, n6 := 1+r.intn(3), 1+r.intn(4)
+		for i := 0; i < n4; i++ {
+			if err := add(false); err != nil {
+				return "error " + err.Error()
+			}
+		}
+		for i := 0; i < n6; i++ {
+			if err := add(true); err != nil {
+				return "error " + err.Error()
+			}
+		}
+		// AddRemoteCandidate returns before its task ran: wait for the sets to settle
+		_, _ = a.GetRemoteCandidates()
+		snap, err := a.GetRemoteCandidates()
+		if err != nil {
+			return "error " + err.Error()
+		}
+		want := append([]Candidate{}, snap...)
+		for i := 0; i < 1+r.intn(4); i++ {
+			if err := add(r.chance(1, 2)); err != nil {
+				return "error " + err.Error()
+			}
+		}
+		if r.chance(1, 4) {
+			if err := a.Restart("", ""); err != nil {
+				return "error " + err.Error()
+			}
+		}
+		_, _ = a.GetRemoteCandidates()
+		if len(snap) != len(want) {
+			return "atomicity snapshot: length of a returned candidate slice changed"
+		}
+		for i := range snap {
+			if snap[i] != want[i] {
+				return fmt.Sprintf("atomicity snapshot: element %d of a slice returned by GetRemoteCandidates changed after later AddRemoteCandidate calls (%s became %s)",
+					i, want[i], snap[i])
+			}
+		}
+	}
+
+	return "ok"
+}
+
 var vaScenarios = map[string]func(*vRand) string{
-	"start":   vaStart,
-	"restart": vaRestart,
-	"creds":   vaCreds,
-	"gather":  vaGather,
+	"start":    vaStart,
+	"restart":  vaRestart,
+	"creds":    vaCreds,
+	"gather":   vaGather,
+	"snapshot": vaSnapshot,
 }
 
 func vAtomicExec(o *vOut, t []string) string {
